@@ -26,7 +26,8 @@ LEVEL_TEXT = ("Theorems (Coq, all argument values, sizes and table lengths): for
               "Sub_List's iterators; Integrate's / Local_Minimum's knot scans; KDE pseudo-data indices 3i < N; inner operator[] guards never fire). "
               "Requests that are not the first one on an object: every history of Resize / Assign / Delete_Row / Delete_Column / copy / assignment / += / M = M + B / M = M * B / "
               "M = M.Transpose() keeps the representation invariant 'components holds Rows() rows of Columns() entries' that the shape guards rely on, each step exits exactly outside "
-              "its domain and reads nothing out of bounds, and afterwards every guard is the stateless one on (Rows(), Columns()) (same for Vector); a sequence of Factorial / "
+              "its domain and reads nothing out of bounds, and afterwards every guard is the stateless one on (Rows(), Columns()) (same for Vector, with the object as the left or as the right operand of Dot / + - += -= * / Angle / Cross: C10_vector_binary_either_side_after_history; every Vector history of any length refines the mathematical size and ends the process exactly at a non-conformable +=, after which the object is a fresh Vector of that size: C10_vector_history_refines_size, C10_vector_session_refines_size, no hypothesis on the sizes; "
+              "Angle(v1, v2), which has no shape test of its own, and double operator*(Vector) exit exactly for differing sizes in either order incl. empty operands (C10_angle, C10_vector_product_operator); operator== of vectors and Outer_Vector_Product return for every pair of sizes without out-of-bounds access (C10_vector_equality_returns, C10_outer_product_returns)); a sequence of Factorial / "
               "Binomial_Coefficient requests returns iff each one is meaningful, for every content of the memo table; a sequence of requests on one Interpolation object (Save_Function's sweep over Linear_Space(domain) included) exits iff one of them does, "
               "and every index its Locate requests return lies in 0..N-2 for every table length and unit argument; Save_Function returns for every number of points in exact arithmetic (over R). "
               "Every kind of request on an Interpolation object exits iff it is refused by Locate's domain test alone (C10_interpolation_request_outcome: Locate / Interpolate / Derivative(x, n) of every order n iff Locate(x) exits - C10_derivative_every_order: the order plays no role -, Integrate iff one end is refused, Local_Minimum/Maximum iff the ends are out of order or one is refused, Global_* never), a sequence exits iff one request is refused (C10_interpolation_sequence_refused_iff); Interpolation_2D::Interpolate(x, y) exits iff x or y is refused by the Locate of its axis and a sequence of such requests iff one point is (C10_interpolate_2d_outcome, C10_interpolation_2d_request_sequence). Method names: a name is accepted iff it is one of the documented strings character by character, Integrate_2D/_3D accept exactly the union (C10_method_names_spelled_out). Interpolation_2D(data_table) in full (C10_interpolation_2d_table_constructor, every strictly ordered number type): accepted iff every row holds three numbers, the table has |x| * |y| rows, row ix*|y|+iy holds (x[ix], y[iy], .) for the sorted distinct first entries x and second entries y, and both are strictly increasing with >= 2 entries, otherwise Exit, nothing out of range; and stated without the constructor's sorting: the full grid X x Y of two strictly increasing lists, written row by row, is accepted (C10_interpolation_2d_table_grid_accepted; the sorted distinct columns of such a table are proved to be X and Y by induction). "
@@ -266,6 +267,10 @@ def fact_seq_ref(t):
     return all(vs)
 
 
+# binary requests with the history object as the left operand, and (r...) as the RIGHT operand
+VEC_BINARY_PROBES = ("dot", "add", "sub", "addeq", "subeq", "mul", "angle", "rdot", "radd", "rsub", "raddeq", "rsubeq", "rmul", "rangle")
+
+
 def vec_ref(t):
     """(verdict, Size() after the history)"""
     d, n = int(t[1]), int(t[2]); pos = 3
@@ -280,8 +285,10 @@ def vec_ref(t):
         elif w != "copy": raise ValueError("vector operation " + w)
     w = t[pos]; a = int(t[pos + 1]) if w != "none" else 0
     if w == "at": return 0 <= a < d, d
-    if w in ("dot", "add", "sub", "addeq"): return a == d, d
-    if w == "cross": return a == 3 and d == 3, d
+    if w in VEC_BINARY_PROBES: return a == d, d
+    if w in ("cross", "rcross"): return a == 3 and d == 3, d
+    if w in ("eq", "req"): return True, d        # operator== answers false for differing sizes
+    if w != "none": raise ValueError("vector request " + w)
     return True, d
 
 
@@ -393,7 +400,8 @@ def meaningful(line):
     if op == "vec_hist": return vec_ref(t)[0]
     if op == "mat_hist": return mat_ref(t)[0]
     if op in ("vec_at", "vec_at_c"): return 0 <= I(2) < I(1)
-    if op in ("dot", "vec_add", "vec_sub", "vec_addeq", "vec_subeq"): return I(1) == I(2)
+    if op in ("dot", "vec_add", "vec_sub", "vec_addeq", "vec_subeq", "vec_mul", "angle"): return I(1) == I(2)
+    if op in ("vec_eq", "outer"): return True       # operator== is false for differing sizes; the outer product exists for every pair of sizes
     if op == "cross": return I(1) == 3 and I(2) == 3
     if op in ("mat_at", "mat_at_c", "delete_row", "return_row"): return 0 <= I(3) < I(1)
     if op in ("delete_col", "return_col"): return 0 <= I(3) < I(2)
@@ -689,8 +697,12 @@ def generate(rng, tier):
     # ---- vector shapes: equal, off by one, zero
     for a in range(0, 6 if not big else 9):
         for b in range(0, 6 if not big else 9):
-            for op in ("dot", "vec_add", "vec_sub", "vec_addeq", "vec_subeq", "cross"):
+            for op in ("dot", "vec_add", "vec_sub", "vec_addeq", "vec_subeq", "cross", "vec_mul", "angle", "vec_eq", "outer"):
                 add(f"{op} {a} {b}", "vector-shape", nt=abs(a - b) <= 1 or (op == "cross" and 2 <= a <= 4 and 2 <= b <= 4))
+    # every binary vector request with both orders of clearly unequal sizes (one operand empty, one much longer)
+    for (a, b) in [(0, 7), (7, 0), (1, 7), (7, 1), (3, 7), (7, 3), (2, 16), (16, 2), (3, 33), (33, 3)] + ([(0, 64), (64, 0), (5, 100), (100, 5), (63, 64), (64, 63)] if big else []):
+        for op in ("dot", "vec_add", "vec_sub", "vec_addeq", "vec_subeq", "cross", "vec_mul", "angle", "vec_eq", "outer"):
+            add(f"{op} {a} {b}", "vector-shape", nt=True)
     # ---- matrix shapes: equal, transposed, off by one
     base = [(1, 1), (1, 2), (2, 1), (2, 2), (2, 3), (3, 2), (3, 3), (3, 4), (4, 3), (0, 0), (0, 2), (2, 0)] + ([(5, 5), (4, 6), (6, 4), (1, 7)] if big else [])
     for (r, c) in base:
@@ -1007,12 +1019,18 @@ def gen_sessions(rng, big, add, edge_points):
             if w in ("resize", "assign", "set"): cur = max(0, cur + rng.choice([-2, -1, 0, 1, 2, 3])) if rng.random() < 0.8 else rng.choice([0, 3]); ops.append(f"{w} {cur}")
             elif w == "addeq": ops.append(f"addeq {cur}")
             else: ops.append("copy")
-        pk = rng.choice(["at", "at", "dot", "add", "sub", "addeq", "cross", "none"])
-        arg = {"at": rng.choice([cur - 1, cur, cur + 1, 0, UMAX, d - 1, d]), "cross": rng.choice([3, cur])}.get(pk, rng.choice([cur, cur, cur + 1, cur - 1, d]))
+        pk = rng.choice(["at", "at", "dot", "add", "sub", "addeq", "cross", "none", "subeq", "mul", "angle", "eq"] + ["r" + w_ for w_ in ("dot", "add", "sub", "addeq", "subeq", "mul", "angle", "cross", "eq")])
+        arg = {"at": rng.choice([cur - 1, cur, cur + 1, 0, UMAX, d - 1, d]), "cross": rng.choice([3, cur]), "rcross": rng.choice([3, cur])}.get(pk, rng.choice([cur, cur, cur + 1, cur - 1, d, 0, cur + 3]))
         if pk == "at" and arg < 0: arg = 0
         if pk != "at" and arg < 0: arg = 0
         add(f"vec_hist {d} {len(ops)} " + " ".join(ops) + (f" {pk} {arg}" if pk != "none" else " none"), "vector-history", nt=True)
     if rng.random() < 2: add("vec_hist 3 1 addeq 4 none", "vector-history", nt=True)
+    # every binary request after a size change, with the object on either side, against the new size, its neighbours, the old size and the empty vector
+    for (d, cur) in ([(3, 2), (2, 3), (0, 3), (3, 0), (4, 7)] if not big else [(a_, b_) for a_ in (0, 1, 2, 3, 4, 7) for b_ in (0, 1, 2, 3, 4, 7) if a_ != b_]):
+        w = rng.choice(["resize", "assign", "set"])
+        for pk in VEC_BINARY_PROBES + ("cross", "rcross", "eq", "req"):
+            for arg in sorted(set([cur, cur + 1, max(cur - 1, 0), d, 0])) if big else rng.sample(sorted(set([cur, cur + 1, max(cur - 1, 0), d, 0])), 2):
+                add(f"vec_hist {d} 1 {w} {cur} {pk} {arg}", "vector-history", nt=True)
     # ---- Matrix: every restructuring member function followed by every guarded request, at the new and at the old shape
     def probes(shape, old):
         r, c = shape; ro, co = old
@@ -1099,13 +1117,13 @@ def gen_coinciding(rng, big, add, grids):
         add(f"find_root {e_} {hx(a)} {hx(a)}", "coinciding-arguments", nt=True)
 
 
-SIMPLE_BAD = ["vec_at 3 3", "vec_at_c 0 0", "factorial 171", "vec_add 3 4", "trace 2 3", "mat_mul 2 3 2 3", "cross 3 2", "integrate Bogus", "integrate_2d Simpson", "gammaln 0x0p+0", "round 0x1p+0 8",
+SIMPLE_BAD = ["angle 2 3", "vec_mul 0 3", "vec_at 3 3", "vec_at_c 0 0", "factorial 171", "vec_add 3 4", "trace 2 3", "mat_mul 2 3 2 3", "cross 3 2", "integrate Bogus", "integrate_2d Simpson", "gammaln 0x0p+0", "round 0x1p+0 8",
               "mat_at 2 2 2", "det 3 2", "inverse 1 2 0x1p+0 0x1p+1", "sub_matrix 3 3 -1 0", "mat_ctor 2 2 1", "import_list 0", "export_table 2 2 3 2", "in_units 1 2 1", "workload 0 5", "minimize 2 3", "gauss_legendre 2 2 2 1",
               "metropolis 1", "binned 2 3 0", "vsh_y 3", "binomial_coefficient -1 0", "pmf_binomial 5 0x1.8p+0 2", "cdf_poisson -0x1p+0 3", "inv_cdf_poisson 4 0x1p+1", "pdf_maxwell 0x0p+0", "inv_erf 0x1p+1",
               "find_root c 0x1p+0 0x0p+0 0x1p+0", "interp 2 0x1p+0 0x1p+0 2", "interp_table 2 2 0x0p+0 0x1p+0 1 0x1p+0", "locate 3 0x0p+0 0x1p+0 0x1p+1 0x1p+2", "interpolate 2 0x0p+0 0x1p+0 -0x1p-6",
               "interp_integrate 3 0x0p+0 0x1p+0 0x1p+1 0x1.8p+1 0x1.8p+1", "local_min 2 0x0p+0 0x1p+0 0x1p-1 0x1p-2", "interp2d 2 0x0p+0 0x1p+0 2 0x0p+0 0x1p+0 1 2", "closest 2 0x1p+1 0x1p+0 0x1p+0",
               "icalls 3 0x0p+0 0x1p+0 0x1p+1 3 0x1.4p+3 -0x1p+0 2 ev 0x1p+3 ev 0x1.8p+4", "fact_seq 2 f 170 f 171", "vec_hist 3 1 resize 2 at 2", "mat_hist 3 3 1 resize 2 5 plus 3 3", "rotation 4 3", "block 0", "gammaq -0x1p+0 0x1p+0"]
-SIMPLE_GOOD = ["vec_at 3 2", "factorial 170", "vec_add 3 3", "trace 3 3", "mat_mul 2 3 3 2", "integrate Gauss-Legendre", "integrate_2d Vegas", "integrate_2d Trapezoidal", "integrate_mc Miser", "import_list 1", "export_table 2 2 2 2",
+SIMPLE_GOOD = ["angle 3 3", "outer 2 3", "vec_at 3 2", "factorial 170", "vec_add 3 3", "trace 3 3", "mat_mul 2 3 3 2", "integrate Gauss-Legendre", "integrate_2d Vegas", "integrate_2d Trapezoidal", "integrate_mc Miser", "import_list 1", "export_table 2 2 2 2",
                "interpolate 2 0x0p+0 0x1p+0 -0x1p-8", "interp_integrate 3 0x0p+0 0x1p+0 0x1p+1 0x1p-1 0x1p-1", "find_root - x c 0x1p+0 0x0p+0 0x1p+1", "inv_erf 0x1p-1", "kde 7", "minimize 2 2", "metropolis 2", "binomial_coefficient 170 85",
                "icalls 3 0x0p+0 0x1p+0 0x1p+1 3 0x1.4p+3 -0x1p+0 2 ev 0x1p+3 int 0x1p+2 0x1p+2", "mat_hist 3 3 1 resize 2 5 plus 2 5", "fact_seq 2 f 170 f 3", "inverse 2 2 0x0p+0 0x1p+0 0x1p+0 0x0p+0", "cdf_binomial 5 0x1p-1 2"]
 
